@@ -211,6 +211,8 @@ impl MmapStorage {
     }
 
     pub fn page_mut(&mut self, page_no: u32) -> Result<&mut [u8]> {
+        #[cfg(turdb_verif)]
+        crate::verif_hooks::page_mut(std::os::unix::io::AsRawFd::as_raw_fd(&self.file), page_no, 0);
         ensure!(
             page_no < self.page_count,
             "page {} out of bounds (page_count={})",
@@ -223,6 +225,8 @@ impl MmapStorage {
     }
 
     pub fn grow(&mut self, new_page_count: u32) -> Result<()> {
+        #[cfg(turdb_verif)]
+        crate::verif_hooks::page_mut(std::os::unix::io::AsRawFd::as_raw_fd(&self.file), new_page_count, 1);
         if new_page_count <= self.page_count {
             return Ok(());
         }
